@@ -7,5 +7,6 @@ for p in $props; do
   s=$(date +%s)
   ./vcheck $p --tier $tier > build/logs/$p.$tier.log 2>&1; rc=$?
   e=$(( $(date +%s) - s ))
+  if [ "$tier" = thorough ] && [ $rc -eq 0 ]; then mkdir -p evidence_thorough; cp evidence/$p.json evidence_thorough/$p.json; fi
   echo "$p $tier exit=$rc ${e}s viol=$(grep -c '^VIOLATION' build/logs/$p.$tier.log) known=$(grep -c '^KNOWN-FINDING' build/logs/$p.$tier.log) :: $(tail -1 build/logs/$p.$tier.log | cut -c1-200)"
 done
